@@ -10,9 +10,11 @@ package engines
 
 import (
 	"bytes"
+	"context"
 	"crypto/tls"
 	"crypto/x509"
 	"encoding/json"
+	"errors"
 	"fmt"
 	"math/rand"
 	"sort"
@@ -189,6 +191,88 @@ func (h *contRun) serverCall() bool {
 		}
 	}
 	h.sets = append(h.sets, ev)
+	return true
+}
+
+// contFailOnceStore fails the next Store once (the node's disk is full for a moment)
+type contFailOnceStore struct {
+	nodeenrollment.Storage
+	armed bool
+	fired bool
+}
+
+func (f *contFailOnceStore) Store(ctx context.Context, m nodeenrollment.MessageWithId) error {
+	if f.armed {
+		f.armed, f.fired = false, true
+		return errors.New("injected: no space left on the node's storage")
+	}
+	return f.Storage.Store(ctx, m)
+}
+
+// failedRotationAttempt: before its next re-enrollment the latest node tries to rotate its credentials (the
+// library's own rotation: new credentials, RotateNodeCredentials on the server, the answer handled on the node)
+// and the node's storage fails the final write once. An attempt that failed is not a rotation: the node still
+// holds, in its storage, the chains it held before - continuity is about what the node holds at every instant.
+func (h *contRun) failedRotationAttempt() bool {
+	r := h.c.R
+	enr := h.enrAt(h.vnow())
+	if enr == nil {
+		return true
+	}
+	n := enr.node
+	before, err := n.Stored()
+	if err != nil || len(before.CertificateBundles) == 0 {
+		return true
+	}
+	newCreds, err := types.NewNodeCredentials(h.s.Ctx, n.Store, n.NodeOpts(nodeenrollment.WithSkipStorage(true))...)
+	if err != nil {
+		r.Broken("continuity: new credentials for a rotation: " + err.Error())
+		return false
+	}
+	fetchReq, err := newCreds.CreateFetchNodeCredentialsRequest(h.s.Ctx)
+	if err != nil {
+		r.Broken("continuity: rotation request: " + err.Error())
+		return false
+	}
+	payload, err := nodeenrollment.EncryptMessage(h.s.Ctx, fetchReq, before)
+	if err != nil {
+		r.Count("rotation_attempts_skipped(old credentials cannot encrypt)", 1)
+		return true
+	}
+	resp, err := rotation.RotateNodeCredentials(h.s.Ctx, h.s.Store, &types.RotateNodeCredentialsRequest{CertificatePublicKeyPkix: before.CertificatePublicKeyPkix, EncryptedFetchNodeCredentialsRequest: payload}, h.s.Opts()...)
+	if err != nil {
+		r.Count("rotation_attempts_skipped(server refused)", 1)
+		return true
+	}
+	inner := new(types.FetchNodeCredentialsResponse)
+	if err := nodeenrollment.DecryptMessage(h.s.Ctx, resp.EncryptedFetchNodeCredentialsResponse, before, inner); err != nil {
+		r.Count("rotation_attempts_skipped(answer does not open)", 1)
+		return true
+	}
+	fs := &contFailOnceStore{Storage: n.Store, armed: true}
+	var herr error
+	if p, st := engine.Guard(func() { _, herr = newCreds.HandleFetchNodeCredentialsResponse(h.s.Ctx, fs, inner, n.NodeOpts()...) }); p != nil {
+		h.viol("panic:"+engine.LibraryFrame(st), fmt.Sprintf("HandleFetchNodeCredentialsResponse panicked when the node's storage failed a write: %v", p))
+		return false
+	}
+	if !fs.fired {
+		r.Count("rotation_attempts_without_a_write(fault not reached)", 1)
+	}
+	after, lerr := n.Stored()
+	switch {
+	case lerr != nil || len(after.CertificateBundles) == 0:
+		h.viol("failed-rotation-attempt-cost-the-node-its-chains", fmt.Sprintf("a credential rotation whose final write failed on the node (error returned: %v) left the node's storage without usable credentials (load error %v): the node no longer holds any chain although it stayed within the cadence", herr != nil, lerr))
+		return false
+	case herr != nil:
+		r.Count("failed_rotation_attempts_that_left_the_old_chains_in_place", 1)
+	default:
+		r.Count("rotation_attempts_that_succeeded", 1)
+	}
+	// the history carries on with the credentials the engine tracks for this node
+	if err := n.Creds.Store(n.Ctx, n.Store, n.NodeOpts()...); err != nil {
+		r.Broken("continuity: restoring the node's tracked credentials: " + err.Error())
+		return false
+	}
 	return true
 }
 
@@ -467,6 +551,9 @@ func runContCase(c *engine.Ctx, cc contCase) {
 					return
 				}
 			}
+			if ni%3 == 1 && len(h.enrs) > 0 && !h.failedRotationAttempt() {
+				return
+			}
 			if !h.enroll() {
 				return
 			}
@@ -616,6 +703,7 @@ func runContinuity(c *engine.Ctx) engine.Result {
 	engine.ForEach(len(cases), engine.Workers(), func(i int) { runContCase(c, cases[i]) })
 	r.Require("histories_with_continuous_trust", int64(len(cases)/3))
 	r.Require("promotions", 200)
+	r.Require("failed_rotation_attempts_that_left_the_old_chains_in_place", 50)
 	r.Require("enrollments", 200)
 	r.Require("enrollments_straddling_a_promotion", 20)
 	r.Require("real_dials_succeeded", 20)
